@@ -102,17 +102,12 @@ func c02RouteOnce(c *Ctx) {
 	}
 	// from every edge establishing retries < hwm the forward is unreachable
 	n := 0
-	for b := range reg.Allowed {
-		for _, s := range b.Succs {
-			if !Establishes(b, s, below) {
-				continue
-			}
-			n++
-			it, path := reg.From(Pt{s, 0}).Reach(forward, nil)
-			c.Check(it.IsZero(), "C02.park-guard", fn, "no-forward-below-hwm", lastInstr(b),
-				"a message below the high watermark cannot reach the forward send in this iteration",
-				"a message with retries < highWatermark can be forwarded to the broker worker: it overtakes the messages parked before it", path)
-		}
+	for _, e := range reg.EstablishingEdges(below) {
+		n++
+		it, path := reg.From(Pt{e.To, 0}).Reach(forward, nil)
+		c.Check(it.IsZero(), "C02.park-guard", fn, "no-forward-below-hwm", lastInstr(e.From),
+			"a message below the high watermark cannot reach the forward send in this iteration",
+			"a message with retries < highWatermark can be forwarded to the broker worker: it overtakes the messages parked before it", path)
 	}
 	if n == 0 {
 		c.Unresolved("C02.park-guard", "no branch on msg.retries < pp.highWatermark")
